@@ -420,21 +420,45 @@ Definition ione (s : ist) : ret (list Z) ist :=
   | _ => (pass o1, s1, ev1)
   end.
 
-(* func Equal with two iterators *)
-Fixpoint iequal (k : nat) (a b : ist) : ret bool (ist * ist) :=
+(* func Equal(iters...): one round of the inner loop `for i := 1; i < len(iters); i++`.
+   [ok] = the (item, ok) pair of iters[0].  Result: Item false = `return false` (the remaining
+   iterators are not pulled in this round), End = the round went through. *)
+Fixpoint iequal_round (ok : option Z) (others : list ist) : ret bool (list ist) :=
+  match others with
+  | [] => (End, [], [])
+  | b :: tl =>
+      let '(ob, b', evb) := istep b in
+      let continue :=
+        let '(o2, tl', ev2) := iequal_round ok tl in (o2, b' :: tl', evb ++ ev2) in
+      match ob, ok with
+      | Item y, Some x => if x =? y then continue else (Item false, b' :: tl, evb)
+      | Item _, None => (Item false, b' :: tl, evb)       (* ok != iterIOk *)
+      | End, Some _ => (Item false, b' :: tl, evb)        (* ok != iterIOk *)
+      | End, None => continue
+      | _, _ => (pass ob, b' :: tl, evb)
+      end
+  end.
+
+(* the outer `for` of Equal; [a] = iters[0] *)
+Fixpoint iequal (k : nat) (a : ist) (others : list ist) : ret bool (ist * list ist) :=
   match k with
-  | O => (Out, (a, b), [])
+  | O => (Out, (a, others), [])
   | S k' =>
       let '(oa, a', eva) := istep a in
-      let '(ob, b', evb) := istep b in
-      match oa, ob with
-      | Item x, Item y =>
-          if x =? y then after (eva ++ evb) (iequal k' a' b')
-          else (Item false, (a', b'), eva ++ evb)
-      | End, End => (Item true, (a', b'), eva ++ evb)
-      | Item _, End | End, Item _ => (Item false, (a', b'), eva ++ evb)
-      | Item _, _ | End, _ => (pass ob, (a', b'), eva ++ evb)
-      | _, _ => (pass oa, (a', b'), eva ++ evb)
+      match oa with
+      | Item x =>
+          let '(orr, others', evr) := iequal_round (Some x) others in
+          match orr with
+          | End => after (eva ++ evr) (iequal k' a' others')
+          | _ => (orr, (a', others'), eva ++ evr)
+          end
+      | End =>
+          let '(orr, others', evr) := iequal_round None others in
+          match orr with
+          | End => (Item true, (a', others'), eva ++ evr)      (* if !ok { return true } *)
+          | _ => (orr, (a', others'), eva ++ evr)
+          end
+      | _ => (pass oa, (a', others), eva)
       end
   end.
 
@@ -510,7 +534,10 @@ Definition irun_reduce (cfg : config) (p : pz) (r : reducer) : robs * list sev :
   | RSum => let '(o, _, ev) := ireduce (ired_fuel s) Z.add 0 s in
             (obs_val (match o with Item x => Item [x] | _ => pass o end), ev)
   | REqualSelf =>
-      let '(o, _, ev) := iequal (ired_fuel s) s (iinit (pz_shift 1000 p)) in
+      let '(o, _, ev) := iequal (ired_fuel s) s [iinit (pz_shift 1000 p)] in
+      (obs_val (match o with Item b => Item [if b then 1 else 0] | _ => pass o end), ev)
+  | REqual others =>
+      let '(o, _, ev) := iequal (ired_fuel s) s (map iinit others) in
       (obs_val (match o with Item b => Item [if b then 1 else 0] | _ => pass o end), ev)
   end.
 
@@ -524,6 +551,7 @@ Definition run_iter_cfg (cfg : config) (p : pz + pl) (prog : program) : run_obs 
       | inl z =>
           let ids := match r with
                      | REqualSelf => sort_ids (pz_ids z ++ pz_ids (pz_shift 1000 z))
+                     | REqual others => sort_ids (pz_ids z ++ flat_map pz_ids others)
                      | _ => sort_ids (pz_ids z)
                      end in
           let '(o, log) := irun_reduce cfg z r in
